@@ -1,1 +1,349 @@
-/- C07 — property theorems (stub: not built yet). -/
+/-
+C07 — O2Jam reading places every note and tempo change at the time its measure implies.
+Property theorems (helper lemmas in `Reamber/Lemmas/O2JTime.lean`, `Reamber/Lemmas/O2JPair.lean`).  Statements are about
+the executable model `Reamber/Model/O2J.lean`, which the correspondence check ties to reamber/o2jam/*.py on every run,
+against the declarative `Reamber/Spec/O2J.lean` — the same definitions the harness evaluates on the implementation's
+output.
+-/
+import Reamber.Lemmas.O2JTime
+import Reamber.Lemmas.O2JPair
+import Reamber.Spec.Timing
+
+namespace Reamber.O2J
+
+open Reamber.O2J.Spec
+open Reamber.Generated
+
+/-! ### tie to the source: generated tables = the format -/
+
+/-- offsets of the generated table entries: running sum of `int(size / count) * count` -/
+def tableOffsets : List (Char × Nat × Nat) → Nat → List Nat
+  | [], _ => []
+  | (_, size, count) :: rest, ix => ix :: tableOffsets rest (ix + size / count * count)
+
+/-- the layout the code implements: each assignment of `read_meta` with the offset, struct code and count of the
+`meta_fields` entry it takes -/
+def derivedLayout : List (String × Nat × Char × Nat × String) :=
+  O2J.metaAssign.map fun a =>
+    let t := layoutTable.getD a.2.1 ('?', 0, 1)
+    (a.1, (tableOffsets layoutTable 0).getD a.2.1 0, t.1, t.2.2, a.2.2)
+
+/-- **The 300-byte header is laid out as the format says**: the three generated `BYTE_*` tables together with the
+generated assignments of `read_meta` give every attribute the format's offset, type, count and shape; the sizes sum to
+300; every entry's element width is its struct code's width.  Re-checked whenever the source tables change. -/
+theorem header_layout_partial :
+    derivedLayout = formatLayout ∧
+    O2J.byteSizes.sum = headerSize ∧
+    O2J.byteCount.length = 23 ∧ O2J.byteSizes.length = 23 ∧ O2J.byteFormats.length = 23 ∧
+    layoutTable.all (fun t => decide (t.2.2 ≠ 0) && decide (fmtSize t.1 = some (t.2.1 / t.2.2))
+                              && decide (t.2.1 / t.2.2 = codeSize t.1)) = true := by
+  decide +kernel
+
+/- `header_layout` is the `_partial` form of the header claim.  FULL STATEMENT (not proved yet):
+     theorem readMeta_eq_specMeta (bs : List Nat) : readMeta bs = specMeta bs
+   i.e. the walk over the generated tables with its running `ix_start`, followed by the generated assignments, returns for
+   EVERY byte string the attributes read directly at the format's declared offsets (and the same error when the string
+   is shorter than 300 bytes).  Proved: the layout the walk implements (offset = running sum of int(size/count)*count,
+   code, count, shape per attribute) IS the format's table, entry widths are the struct codes' widths, sizes sum to 300
+   (`header_layout`, by evaluation of the generated tables).  Missing: the generic induction "walk tbl ix = map (read at
+   offsets tbl ix)" and its fusion with the assignment loop.  Both functions are evaluated by the driver on every
+   generated file and compared with the implementation's header (model: correspondence, spec: specification). -/
+
+/-- the channel numbering and note-type bytes the model takes from the source are the format's -/
+theorem channels_tie :
+    O2J.chMeasureFraction = 0 ∧ O2J.chBpmChange = 1 ∧
+    O2J.colRangeStart = 2 ∧ O2J.colRangeStop = 9 ∧ O2J.colRangeStep = 1 ∧
+    O2J.colChannels = [("COL_1", 2), ("COL_2", 3), ("COL_3", 4), ("COL_4", 5), ("COL_5", 6), ("COL_6", 7), ("COL_7", 8)] ∧
+    O2J.hitByte = 0 ∧ O2J.holdHeadByte = 2 ∧ O2J.holdTailByte = 3 ∧
+    Reamber.Timing.minToMsec = 60000 := by
+  decide +kernel
+
+theorem isNoteChannel_eq (ch : Int) : isNoteChannel ch = isColChannel ch := by
+  simp only [isNoteChannel, isColChannel, O2J.colRangeStart, O2J.colRangeStop]
+  by_cases h1 : (2 : Int) ≤ ch <;> by_cases h2 : ch < 9 <;> simp [h1, h2] <;> omega
+
+/-- with those constants the model's event decoders are the specification's (which uses literals) -/
+theorem slotsOf_eq_spec (p : RawPkg) (h : isNoteChannel p.channel = true) : slotsOf p = specSlots p := by
+  have hc : isColChannel p.channel = true := by rw [← isNoteChannel_eq]; exact h
+  have haux : ∀ (m c : Int) (n : Nat) (gs : List (List Nat)) (i : Nat),
+      slotsAux m c n i gs = specSlotsAux m c n i gs := by
+    intro m c n gs
+    induction gs with
+    | nil => intro i; rfl
+    | cons g rest ih =>
+      intro i
+      have hs : slotOf m c n i g = specSlot m c n i g := rfl
+      unfold slotsAux specSlotsAux
+      rw [hs]
+      cases specSlot m c n i g <;> simp [ih]
+  simp only [slotsOf, specSlots, hc, if_true, haux]
+
+/-! ### decoders -/
+
+/-- little-endian bytes of `v` on `k` bytes (what `struct.pack` writes) -/
+def encodeLE : Nat → Nat → List Nat
+  | 0, _ => []
+  | k + 1, v => v % 256 :: encodeLE k (v / 256)
+
+/-- two's-complement bit pattern of an integer on `bits` bits -/
+def toBits (bits : Nat) (n : Int) : Nat := (n % (2 ^ bits : Nat)).toNat
+
+theorem leNat_encodeLE (k : Nat) : ∀ v, v < 256 ^ k → leNat (encodeLE k v) = v := by
+  induction k with
+  | zero => intro v h; simp at h; subst h; rfl
+  | succ k ih =>
+    intro v h
+    simp only [encodeLE, leNat]
+    rw [ih (v / 256) (by rw [Nat.pow_succ] at h; omega)]
+    omega
+
+/-- `unpack("<i", pack("<i", n)) = n` for every 32-bit integer -/
+theorem decodeI32_encode (n : Int) (h1 : -2 ^ 31 ≤ n) (h2 : n < 2 ^ 31) :
+    decodeI32 (encodeLE 4 (toBits 32 n)) = n := by
+  unfold decodeI32
+  rw [leNat_encodeLE 4 _ (by unfold toBits; omega)]
+  unfold toSigned toBits
+  split <;> omega
+
+/-- `unpack("<h", pack("<h", n)) = n` for every 16-bit integer -/
+theorem decodeI16_encode (n : Int) (h1 : -2 ^ 15 ≤ n) (h2 : n < 2 ^ 15) :
+    decodeI16 (encodeLE 2 (toBits 16 n)) = n := by
+  unfold decodeI16
+  rw [leNat_encodeLE 2 _ (by unfold toBits; omega)]
+  unfold toSigned toBits
+  split <;> omega
+
+/-- float32 bits → value: the four bytes of sign `s`, biased exponent `e`, mantissa `m` decode to the IEEE-754 value
+`(-1)^s · (1 + m/2^23) · 2^(e-127)` (normal), `(-1)^s · m · 2^-149` (subnormal / zero), ±inf, NaN (`f32OfParts`) -/
+theorem decodeF32_parts (s e m : Nat) (hs : s < 2) (he : e < 256) (hm : m < 2 ^ 23) :
+    decodeF32 (encodeLE 4 (s * 2 ^ 31 + e * 2 ^ 23 + m)) = f32OfParts s e m := by
+  unfold decodeF32
+  rw [leNat_encodeLE 4 _ (by omega)]
+  have h1 : (s * 2 ^ 31 + e * 2 ^ 23 + m) / 2 ^ 31 = s := by omega
+  have h2 : (s * 2 ^ 31 + e * 2 ^ 23 + m) / 2 ^ 23 % 256 = e := by omega
+  have h3 : (s * 2 ^ 31 + e * 2 ^ 23 + m) % 2 ^ 23 = m := by omega
+  simp only [h1, h2, h3]
+
+example : decodeF32 [0, 0, 0xF0, 0x42] = .fin 120 := by decide +kernel
+example : decodeF32 [0, 0, 0x80, 0x3F] = .fin 1 := by decide +kernel
+example : decodeF32 [0xCD, 0xCC, 0x4C, 0xBE] = .fin (-13421773 / 67108864) := by decide +kernel   -- -0.2f
+example : decodeF32 [1, 0, 0, 0] = .fin (1 / 2 ^ 149) := by decide +kernel
+example : decodeF32 [0, 0, 0x80, 0xFF] = .inf true := by decide +kernel
+example : decodeI32 (encodeLE 4 (toBits 32 (-2))) = -2 := by decide +kernel
+
+/-! ### times -/
+
+/-- **Every note, long-note end and tempo event sits at the integrated time of its measure position.**
+For any packages of one difficulty (no measure-fraction package, header tempo ≠ 0) the model's `read_pkgs` returns
+exactly: the notes in stable measure order, each with `Spec.noteOut` — offset `posTime` of its position, a long note's
+length `posTime tail − posTime head` —, and the tempo list `(0 ms, header tempo)` followed by the tempo events in
+stable position order, each at `posTime` of its own position.  This covers tempo events after the last note (or with
+no note at all), several events inside one measure, events at position 0, events coinciding with notes, and packages
+in any file order. -/
+theorem o2j_times (pkgs : List Pkg) (init : Rat) (hmf : pkgs.any (·.mfrac) = false) (h0 : init ≠ 0) :
+    readPkgs pkgs false init =
+      .ok ⟨(sortNotes (pkgs.flatMap (·.notes))).map (noteOut init (sortBpms (pkgs.flatMap (·.bpms)))),
+           ⟨0, init, 0⟩ :: (sortBpms (pkgs.flatMap (·.bpms))).map (bpmOut init (sortBpms (pkgs.flatMap (·.bpms))))⟩ := by
+  unfold readPkgs
+  simp only [hmf, Bool.false_eq_true, if_false]
+  rw [if_neg (by intro h; exact h0 h.1)]
+  rw [sweep_table _ _ _ (dedupSort_asc _), sweep_offsets, consumeAll_integ _ _ (sortBpms_sorted _)]
+  have hint : ∀ evs p, integS ⟨0, 0, init⟩ evs p = posTime init evs p := fun _ _ => rfl
+  simp only [hint]
+  rw [mapE_eq_ok_map _ (noteOut init (sortBpms (pkgs.flatMap (·.bpms))))]
+  · simp only [bind, Except.bind]
+    rw [zipBpms_map]
+    rfl
+  · intro n hn
+    have hpos : n.pos ∈ dedupSort ((sortNotes (pkgs.flatMap (·.notes))).map Note.pos ++
+        (sortNotes (pkgs.flatMap (·.notes))).filterMap Note.tailPos) := by
+      rw [mem_dedupSort]; simp only [List.mem_append, List.mem_map]; left; exact ⟨n, hn, rfl⟩
+    unfold timeNote
+    rw [lookupT_map _ _ _ hpos]
+    cases n with
+    | hit s => rfl
+    | hold h t =>
+      have htl : t.pos ∈ dedupSort ((sortNotes (pkgs.flatMap (·.notes))).map Note.pos ++
+          (sortNotes (pkgs.flatMap (·.notes))).filterMap Note.tailPos) := by
+        rw [mem_dedupSort]; simp only [List.mem_append, List.mem_filterMap]; right
+        exact ⟨.hold h t, hn, rfl⟩
+      simp only []
+      rw [lookupT_map _ _ _ htl]
+      rfl
+
+/-- the error branches are covered, not totalised: a missing package (`None`) and a measure-fraction package raise
+`AttributeError`; a header tempo of 0 raises `ZeroDivisionError` as soon as there is anything to time -/
+theorem readPkgs_errors (pkgs : List Pkg) (init : Rat) :
+    readPkgs pkgs true init = .error .attr ∧
+    (pkgs.any (·.mfrac) = true → readPkgs pkgs false init = .error .attr) ∧
+    (pkgs.any (·.mfrac) = false → sortBpms (pkgs.flatMap (·.bpms)) ≠ [] → readPkgs pkgs false 0 = .error .zeroDiv) := by
+  refine ⟨by simp [readPkgs], ?_, ?_⟩
+  · intro h; unfold readPkgs; simp [h]
+  · intro h hb; unfold readPkgs
+    simp [h, hb]
+
+/-- non-vacuity of `o2j_times`: two tempo events (one inside a measure), notes after each, a tempo event after the
+last note, a long note across two packages; header tempo 120 -/
+example :
+    (readPkgs
+      [⟨0, 2, [], [.hit ⟨0, 0, 4, 8, .hit⟩, .hit ⟨1 / 2, 0, 4, 8, .hit⟩], [], false⟩,
+       ⟨1, 1, [], [], [(3 / 2, 60)], false⟩,
+       ⟨2, 8, [], [.hit ⟨2, 6, 4, 8, .hit⟩], [], false⟩,
+       ⟨3, 1, [], [], [(3, 240)], false⟩,
+       ⟨4, 3, [], [.hold ⟨3, 1, 4, 8, .head⟩ ⟨9 / 2, 1, 4, 8, .tail⟩], [], false⟩,
+       ⟨6, 1, [], [], [(6, 90)], false⟩] false 120).toOption.map
+      (fun o => (o.notes.map (fun n => (n.time, n.len)), o.bpms.map (·.time)))
+    = some ([(0, none), (1000, none), (5000, none), (9000, some 1500)], [0, 3000, 9000, 12000]) := by
+  decide +kernel
+
+/-! ### pairing -/
+
+/-- **Long notes are paired head to tail, across packages**: folding the note events of a package through the hold
+buffer — from the buffer state left by everything read before (earlier packages, measures, difficulties) — yields
+exactly the notes of the declarative pairing `Spec.pairFrom` (each tail with the most recent long-note event of its
+column, which must be a head; `KeyError` otherwise), and leaves a buffer that again represents the stream read so far.
+Starting from the empty buffer this is `pairFrom []` of the difficulty's whole event stream. -/
+theorem hold_pairing (slots : List Slot) (buf : Buf) (revPre : List Slot) (h : BufRep buf revPre) :
+    match foldBuf buf slots with
+    | .ok (ns, b) => pairFrom revPre slots = .ok ns ∧ BufRep b (slots.reverse ++ revPre)
+    | .error e => pairFrom revPre slots = .error e :=
+  foldBuf_pairFrom slots buf revPre h
+
+/-- what a note package contributes is the pairing of its decoded slots (decoded with the format's constants) -/
+theorem decodePkg_notes (p : RawPkg) (buf : Buf) (revPre : List Slot) (h : BufRep buf revPre)
+    (hc : isNoteChannel p.channel = true) :
+    match decodePkg p buf with
+    | .ok (pk, b) => pairFrom revPre (specSlots p) = .ok pk.notes ∧ pk.slots = specSlots p ∧ pk.bpms = [] ∧
+        pk.mfrac = false ∧ BufRep b ((specSlots p).reverse ++ revPre)
+    | .error e => pairFrom revPre (specSlots p) = .error e := by
+  unfold decodePkg
+  simp only [hc, if_true]
+  have := foldBuf_pairFrom (slotsOf p) buf revPre h
+  rw [slotsOf_eq_spec p hc] at this ⊢
+  cases hf : foldBuf buf (specSlots p) with
+  | error e => rw [hf] at this; simp only [bind, Except.bind]; exact this
+  | ok r =>
+    obtain ⟨ns, b⟩ := r
+    rw [hf] at this
+    simp only [bind, Except.bind]
+    refine ⟨this.1, ?_, ?_, ?_, this.2⟩ <;> first | rfl | trivial
+
+/-- non-vacuity: a head replaced by a second head, closed in a later package; a hit in between on another column -/
+example :
+    (foldBuf [] [⟨0, 0, 4, 8, .head⟩, ⟨1 / 2, 0, 4, 8, .head⟩, ⟨1 / 2, 1, 4, 8, .hit⟩, ⟨7 / 4, 0, 4, 8, .tail⟩]).toOption.map (·.1)
+      = some [.hit ⟨1 / 2, 1, 4, 8, .hit⟩, .hold ⟨1 / 2, 0, 4, 8, .head⟩ ⟨7 / 4, 0, 4, 8, .tail⟩] := by decide +kernel
+example : (match foldBuf [] [⟨0, 0, 4, 8, .tail⟩] with | .error .key => true | _ => false) = true := by decide +kernel
+
+
+/-! ### the sweep before its repair (finding D10), kept as documentation -/
+
+/-- state of the unrepaired loop: running state, number of tempo events consumed, `next_bpm_measure` (`none` = `None`),
+offsets assigned so far (events never reached keep the 0 they were created with) -/
+structure OldSt where
+  st : St
+  ix : Nat
+  next : Option Rat
+  offs : List Rat
+deriving Repr, DecidableEq
+
+/-- `while note_measure > next_bpm_measure:` of the old code; comparing with `None` is a `TypeError` (`none` result) -/
+def oldWhile (bpms : List (Rat × Rat)) : Nat → OldSt → Rat → Option OldSt
+  | 0, s, _ => some s
+  | f + 1, s, nm =>
+    match s.next with
+    | none => none
+    | some nx =>
+      if nm > nx then
+        match bpms[s.ix]? with
+        | none => some s
+        | some e =>
+          let st' := consume s.st e
+          if s.ix + 1 = bpms.length then some ⟨st', s.ix + 1, none, s.offs ++ [st'.offset]⟩       -- `break`
+          else oldWhile bpms f ⟨st', s.ix + 1, some e.1, s.offs ++ [st'.offset]⟩ nm               -- lagging `next`
+      else some s
+
+/-- the old `for note_measure in note_measures:` with its `if not next_bpm_measure:` (true for `None` and for 0.0) -/
+def oldSweep (bpms : List (Rat × Rat)) : OldSt → List Rat → Option (List (Rat × Rat) × OldSt)
+  | s, [] => some ([], s)
+  | s, nm :: rest =>
+    let s1 := if s.next = none ∨ s.next = some 0 then oldWhile bpms (bpms.length + 1) s nm else some s
+    match s1 with
+    | none => none
+    | some s' =>
+      match oldSweep bpms s' rest with
+      | none => none
+      | some (tbl, sf) => some ((nm, segTime s'.st nm) :: tbl, sf)
+
+def oldInit (init : Rat) (bpms : List (Rat × Rat)) : OldSt := ⟨⟨0, 0, init⟩, 0, bpms.head?.map (·.1), []⟩
+
+/-- **D10**: with two tempo events (none at measure 0) the unrepaired loop never consumed a tempo event: the notes at
+measures 2 and 4 came out at 4000 and 8000 ms (header tempo throughout) instead of 6000 and 11000 ms, and no tempo
+event was given an offset (all tempo points stayed at 0 ms — as observed on the bundled file); with no tempo package
+at all it compared a float with `None` (`TypeError`); with a tempo event at measure 0 it consumed *every* tempo event
+at the first later note and raised at the next one.  The repaired sweep (`sweep`) is `posTime` (`o2j_times`). -/
+theorem old_sweep_counterexample :
+    (oldSweep [(1, 60), (3, 240)] (oldInit 120 [(1, 60), (3, 240)]) [0, 2, 4]).map (fun r => (r.1, r.2.offs))
+      = some ([(0, 0), (2, 4000), (4, 8000)], []) ∧
+    [0, 2, 4].map (posTime 120 [(1, 60), (3, 240)]) = [0, 6000, 11000] ∧
+    (sweep ⟨0, 0, 120⟩ [(1, 60), (3, 240)] [0, 2, 4]) = ([(0, 0), (2, 6000), (4, 11000)], [2000, 10000]) ∧
+    oldSweep [] (oldInit 120 []) [1] = none ∧
+    oldSweep [(0, 60), (3, 240)] (oldInit 120 [(0, 60), (3, 240)]) [1, 2] = none := by
+  decide +kernel
+
+/-- **D26** (repaired): the length used to be stored through `astype(int64)` whenever the head's offset was a whole
+number of milliseconds.  With header tempo 150, head at measure 5/2 and tail at measure 17/3 the exact length is
+15200/3 ms; truncation toward zero gave 5066. -/
+theorem old_length_counterexample :
+    posTime 150 [] (5 / 2) = 4000 ∧ posTime 150 [] (17 / 3) - posTime 150 [] (5 / 2) = 15200 / 3 ∧
+    (((15200 / 3 : Rat).floor : Int) : Rat) = 5066 := by
+  decide +kernel
+
+/-! ### the specification's integration is the timing kernel's `timeAt` -/
+
+/-- a tempo event at measure position `m` as a K1 tempo change: 4 beats per measure, beat `4m` of measure 0 -/
+def toBc (e : Rat × Rat) : Timing.BcSnap := ⟨e.2, 4, ⟨0, 4 * e.1, none⟩⟩
+def snapOfPos (p : Rat) : Timing.Snap := ⟨0, 4 * p, none⟩
+
+theorem integ_eq_timeAtAux (evs : List (Rat × Rat)) : ∀ (T m b p : Rat),
+    integ T m b evs p = Timing.timeAtAux T (toBc (m, b)) (evs.map toBc) (snapOfPos p) := by
+  induction evs with
+  | nil =>
+    intro T m b p
+    simp only [integ, List.map_nil, Timing.timeAtAux, toBc, snapOfPos, Timing.snapDist, Timing.beatLen, Int.sub_self]
+    simp only [Rat.intCast_zero]
+    grind
+  | cons e rest ih =>
+    intro T m b p
+    have hle : (toBc e).snap.le (snapOfPos p) = decide (e.1 ≤ p) := by
+      simp only [toBc, snapOfPos, Timing.Snap.le, Timing.Snap.lt, Timing.Snap.eqv, Int.lt_irrefl, decide_false, Bool.false_or,
+        decide_true, Bool.true_and]
+      by_cases h : e.1 ≤ p
+      · by_cases h' : e.1 = p
+        · subst h'; simp
+        · have : 4 * e.1 < 4 * p := by grind
+          simp [h, this]
+      · have h1 : ¬ (4 * e.1 < 4 * p) := by grind
+        have h2 : ¬ (4 * e.1 = 4 * p) := by grind
+        simp [h, h1, h2]
+    simp only [integ, List.map_cons, Timing.timeAtAux, hle]
+    by_cases h : e.1 ≤ p
+    · simp only [h, if_true, decide_true]
+      rw [ih]
+      congr 1
+      simp only [toBc, Timing.snapDist, Timing.beatLen, Int.sub_self, Rat.intCast_zero]
+      grind
+    · simp only [h, if_false, decide_false, Bool.false_eq_true]
+      simp only [toBc, snapOfPos, Timing.snapDist, Timing.beatLen, Int.sub_self, Rat.intCast_zero]
+      grind
+
+/-- `posTime` is `timeAt` of the timing kernel (K1, property C10) over the header tempo at position 0 followed by the
+tempo events, 4 beats per measure: the statement "integrating its measure position over the header tempo and all
+tempo-channel events before it" in K1's terms -/
+theorem posTime_eq_timeAt (init : Rat) (evs : List (Rat × Rat)) (p : Rat) :
+    posTime init evs p = Timing.timeAt 0 (toBc (0, init) :: evs.map toBc) (snapOfPos p) := by
+  unfold posTime Timing.timeAt
+  exact integ_eq_timeAtAux evs 0 0 init p
+
+example : posTime 120 [(3 / 2, 60), (3, 240)] (9 / 2) = 10500 := by decide +kernel
+
+end Reamber.O2J
